@@ -3582,10 +3582,11 @@ static Node *generic_selection(Token **rest, Token *tok) {
   Token *start = tok;
   tok = skip(tok, "(");
 
-  // Only the result expression is evaluated. Which one that is is
-  // known at the end, so it is parsed once more then.
+  // Only the result expression is evaluated. A function named in the
+  // controlling expression or in another association is not used.
   unevaluated++;
   Node *ctrl = assign(&tok, tok);
+  unevaluated--;
   add_type(ctrl);
 
   Type *t1 = ctrl->ty;
@@ -3594,33 +3595,51 @@ static Node *generic_selection(Token **rest, Token *tok) {
   else if (t1->kind == TY_ARRAY)
     t1 = pointer_to(t1->base);
 
-  Token *ret = NULL;
-  Token *dflt = NULL;
+  // Every association is parsed once; the functions that each one
+  // names are noted at refs[from, to) of the current function.
+  StringArray *refs = current_fn ? &current_fn->refs : NULL;
+  int base = refs ? refs->len : 0;
+  Node *ret = NULL, *dflt = NULL;
+  int from = 0, to = 0, dflt_from = 0, dflt_to = 0;
 
   while (!consume(rest, tok, ")")) {
     tok = skip(tok, ",");
 
     if (equal(tok, "default")) {
       tok = skip(tok->next, ":");
-      dflt = tok;
-      assign(&tok, tok);
+      dflt_from = refs ? refs->len : 0;
+      dflt = assign(&tok, tok);
+      dflt_to = refs ? refs->len : 0;
       continue;
     }
 
     Type *t2 = typename(&tok, tok);
     tok = skip(tok, ":");
-    if (is_compatible(t1, t2))
-      ret = tok;
-    assign(&tok, tok);
+    int n = refs ? refs->len : 0;
+    Node *node = assign(&tok, tok);
+    if (is_compatible(t1, t2)) {
+      ret = node;
+      from = n;
+      to = refs ? refs->len : 0;
+    }
   }
-  unevaluated--;
 
-  if (!ret)
+  if (!ret) {
     ret = dflt;
+    from = dflt_from;
+    to = dflt_to;
+  }
   if (!ret)
     error_tok(start, "controlling expression type not compatible with"
               " any generic association type");
-  return assign(&tok, ret);
+
+  // Keep the references of the result expression only.
+  if (refs) {
+    for (int i = from; i < to; i++)
+      refs->data[base + i - from] = refs->data[i];
+    refs->len = base + to - from;
+  }
+  return ret;
 }
 
 // primary = "(" "{" stmt+ "}" ")"
